@@ -230,7 +230,8 @@ def _own_cost(netlist):
 
 
 def _design(rng, n_mod):
-    W, H = rng.choice([(10.0, 7.0), (8.0, 2.0), (0.3, 0.7), (120.5, 33.1)])
+    # a millimetre-sized die written in metres and a large one (after the open seed r8-C13-1: costs rounded to six decimals)
+    W, H = rng.choice([(10.0, 7.0), (8.0, 2.0), (0.3, 0.7), (120.5, 33.1), (0.002, 0.0016), (0.002, 0.0016), (3000.0, 1800.0)])
     mods, names = {}, []
     for i in range(n_mod):
         nm = f"M{i}"
@@ -240,7 +241,8 @@ def _design(rng, n_mod):
         if rng.random() < 0.15:
             cx = rng.choice([0.0, W])
         if kind == "soft":
-            mods[nm] = {"area": round(rng.uniform(0.01, 0.2) * W * H, 3), "center": [cx, cy]}
+            a_ = rng.uniform(0.01, 0.2) * W * H
+            mods[nm] = {"area": round(a_, 3) if a_ > 0.01 else a_, "center": [cx, cy]}
         elif kind == "fixed":
             w, h = 0.1 * W, 0.1 * H
             cx, cy = min(max(cx, w / 2), W - w / 2), min(max(cy, h / 2), H - h / 2)
@@ -258,7 +260,7 @@ def _design(rng, n_mod):
     for _ in range(rng.randint(1, 3)):
         e = rng.sample(names, rng.randint(2, min(4, n_mod)))
         if rng.random() < 0.5:
-            e.append(rng.choice([2, 0.5, 8, 50]))
+            e.append(rng.choice([2, 0.5, 8, 50]) if W > 0.01 else rng.choice([1e-4, 3e-4, 2e-5]))
         nets.append(e)
     if rng.random() < 0.4:      # a bus: the same net several times (equal wire lengths; added after seed C13-7, which summed a SET of lengths)
         nets += [list(nets[0]) for _ in range(rng.randint(1, 3))]
